@@ -6,7 +6,7 @@
 later use: the result of a later call then depends on what was computed before (history dependence), and the operand
 no longer denotes the matrix / function it was built as.
 
-May-alias analysis, per function, flow-insensitive and deliberately small:
+May-alias analysis, per function, a forward analysis over the statement structure, deliberately small:
 
   sources      attribute reads `obj.attr`, accessor calls without arguments `obj.to_x()`, `obj.get_x()`, `obj.weak_form()`,
                `obj.projections()`, `obj.data()`
@@ -69,25 +69,15 @@ def may_alias(e, al):
 
 
 def sites(fn):
-    """[(line, text, why)] of the in-place updates of possibly shared storage in fn (nested functions included)."""
-    al = set()
-    changed = True
-    while changed:  # fixpoint over the plain assignments (flow-insensitive)
-        changed = False
-        for st in ast.walk(fn):
-            if isinstance(st, ast.Assign) and len(st.targets) == 1 and isinstance(st.targets[0], ast.Name) and st.targets[0].id not in al and may_alias(st.value, al):
-                al.add(st.targets[0].id)
-                changed = True
-    scalars = set()
-    for st in ast.walk(fn):  # a name that is (re)bound to a number / len() / a counter is not array storage
-        if isinstance(st, ast.Assign) and len(st.targets) == 1 and isinstance(st.targets[0], ast.Name):
-            v = st.value
-            if isinstance(v, ast.Constant) or (isinstance(v, ast.Call) and unparse(v.func) in ("len", "int", "float", "range")):
-                scalars.add(st.targets[0].id)
-    al -= scalars
+    """[(line, text, why)] of the in-place updates of possibly shared storage in fn (nested functions included).
+
+    Forward may-analysis over the statement structure: the set of local names that may share storage with an object's
+    state is updated in source order (`x = <fresh>` removes x, `x = <alias>` adds it), joined over the branches of an
+    `if` / `try`, and loop bodies are walked twice so that a binding made late in an iteration reaches its start."""
     params = {a.arg for a in fn.args.args + fn.args.kwonlyargs} - {"self", "cls"}
     out = []
-    for st in ast.walk(fn):
+
+    def check(st, al):
         if isinstance(st, ast.AugAssign) and isinstance(st.target, ast.Name) and st.target.id in al:
             out.append((st.lineno, unparse(st)[:80], "`%s` may share storage with an operand (it was bound to a view / accessor result) and is updated in place" % st.target.id))
         tgt = st.target if isinstance(st, ast.AugAssign) else (st.targets[0] if isinstance(st, ast.Assign) and len(st.targets) == 1 else None)
@@ -100,15 +90,54 @@ def sites(fn):
                 root = root.value
             if isinstance(root, ast.Name) and root.id in params:
                 out.append((st.lineno, unparse(st)[:80], "state of the argument `%s` is overwritten" % root.id))
-        if isinstance(st, ast.Call):
-            for k in st.keywords:
-                if k.arg == "out" and may_alias(k.value, al):
-                    out.append((st.lineno, unparse(st)[:80], "`out=%s` writes into storage that may belong to an operand" % unparse(k.value)))
-            f = st.func
-            if isinstance(f, ast.Attribute) and f.attr in INPLACE_METHODS and isinstance(f.value, ast.Name) and f.value.id in al:
-                out.append((st.lineno, unparse(st)[:80], "in-place method on `%s`, which may share storage with an operand" % f.value.id))
-            if isinstance(f, ast.Attribute) and f.attr == "at" and st.args and isinstance(st.args[0], ast.Name) and st.args[0].id in al:
-                out.append((st.lineno, unparse(st)[:80], "unbuffered in-place update of `%s`, which may share storage with an operand" % st.args[0].id))
+        exprs = [st.value] if isinstance(st, (ast.Assign, ast.AugAssign, ast.Expr, ast.Return)) and st.value is not None else \
+            [st.test] if isinstance(st, (ast.If, ast.While)) else [st.iter] if isinstance(st, ast.For) else []
+        for ex in exprs:
+            for c in ast.walk(ex):
+                if not isinstance(c, ast.Call):
+                    continue
+                for k in c.keywords:
+                    if k.arg == "out" and may_alias(k.value, al):
+                        out.append((c.lineno, unparse(c)[:80], "`out=%s` writes into storage that may belong to an operand" % unparse(k.value)))
+                f = c.func
+                if isinstance(f, ast.Attribute) and f.attr in INPLACE_METHODS and isinstance(f.value, ast.Name) and f.value.id in al:
+                    out.append((c.lineno, unparse(c)[:80], "in-place method on `%s`, which may share storage with an operand" % f.value.id))
+                if isinstance(f, ast.Attribute) and f.attr == "at" and c.args and isinstance(c.args[0], ast.Name) and c.args[0].id in al:
+                    out.append((c.lineno, unparse(c)[:80], "unbuffered in-place update of `%s`, which may share storage with an operand" % c.args[0].id))
+
+    def scalar(v):
+        return isinstance(v, ast.Constant) or (isinstance(v, ast.Call) and unparse(v.func) in ("len", "int", "float", "range"))
+
+    def block(stmts, al):
+        for st in stmts:
+            check(st, al)
+            if isinstance(st, ast.Assign):
+                for t in st.targets:
+                    names = [t] if isinstance(t, ast.Name) else [e for e in ast.walk(t) if isinstance(e, ast.Name) and isinstance(e.ctx, ast.Store)] if isinstance(t, (ast.Tuple, ast.List)) else []
+                    for nm in names:
+                        if isinstance(t, ast.Name) and not scalar(st.value) and may_alias(st.value, al):
+                            al = al | {nm.id}
+                        else:
+                            al = al - {nm.id}
+            elif isinstance(st, ast.If):
+                al = block(st.body, al) | block(st.orelse, al)
+            elif isinstance(st, (ast.For, ast.While)):
+                if isinstance(st, ast.For):
+                    al = al - {e.id for e in ast.walk(st.target) if isinstance(e, ast.Name)}
+                once = block(st.body, al)
+                al = al | once | block(st.body, al | once) | block(st.orelse, al | once)
+            elif isinstance(st, ast.With):
+                al = block(st.body, al)
+            elif isinstance(st, ast.Try):
+                b = block(st.body, al)
+                for h in st.handlers:
+                    b = b | block(h.body, al | b)
+                al = block(st.finalbody, block(st.orelse, b))
+            elif isinstance(st, (ast.FunctionDef, ast.AsyncFunctionDef)):
+                block(st.body, al - {a.arg for a in st.args.args})  # a closure sees the bindings made so far
+        return al
+
+    block(fn.body, frozenset())
     return sorted(set(out))
 
 
@@ -130,5 +159,5 @@ def alias_mutation(ctx, rule_id="ALIAS-MUTATION"):
     if not n_bad:
         r.ok("%d functions, no in-place update of possibly shared storage" % n_fn)
     pos = ast.parse("def __add__(self, other):\n    result = self.to_dense().astype(_np.result_type(self.dtype, other.dtype), copy=False)\n    result += other.to_dense()\n    return Dense(result)\n").body[0]
-    neg = ast.parse("def __add__(self, other):\n    result = self.to_dense().astype(_np.result_type(self.dtype, other.dtype))\n    result += other.to_dense()\n    n = self.counts['a']\n    n += 1\n    return Dense(result)\n").body[0]
+    neg = ast.parse("def __add__(self, other):\n    result = self.to_dense().astype(_np.result_type(self.dtype, other.dtype))\n    result += other.to_dense()\n    n = self.counts['a']\n    n += 1\n    t = self._impl\n    t = t.copy()\n    t *= 2\n    return Dense(result)\n").body[0]
     r.must_fire(len(sites(pos)) == 1 and not sites(neg), "sum accumulated into the left operand's own array (astype(copy=False))")
